@@ -49,6 +49,12 @@ def run(ck):
 
                 paths = _eval(ck, cls, form, fn)
                 for p in returning(paths, inst):
+                    # floating-point hazards of rewrites that are exact over the reals (a small catalogue, see interp.numeric)
+                    haz = [h for h in p.interp.numeric]
+                    ck.check(not haz, "C01.R4", inst + ":no catastrophic cancellation in the energy", haz[0][0] if haz else prog.method("BinaryRBM", "effective_energy").site(),
+                             "%s with x = %s: %s, so the energy / amplitude / probability are infinite or NaN where the definition (log(1 + e^x) = x + log(1 + e^-x)) is finite" % (
+                                 (haz[0][1], str(haz[0][2])[:80], "exp(x) overflows to inf for x > 709.78" if "overflow" in haz[0][1] else
+                                  "in double precision 1 - sigmoid(x) is exactly 0 for x > 36.74 and the logarithm is -inf (hidden pre-activations of that size are ordinary parameter values)") if haz else ("", "", "")))
                     mixed = batch_reductions(p) if form == "batched" else []
                     ck.check(not mixed, "C01.R7", inst + ":each row's value depends on that row only", mixed[0][0] if mixed else prog.method(cls, "amplitude").site(),
                              "%s over the axes %s, which include the batch axis: every row of a batch receives a contribution from all the other rows (the single-vector and one-row forms are unaffected)"
